@@ -21,9 +21,9 @@ PROPS = {
 
 PROPS['C17'] = dict(
     title='Popularity skew is linear with the requested ratio',
-    functions=[GS + 'create_linear_distribution'],
-    lemmas=['C17/sum-positive', 'C17/scaled-sum'],
-    level_text='postcondition (positive, sums to one, arithmetic progression, last = skew*first, n=1 gives [1]) proved over the reals for every n >= 1 and skew > 0 by a loop invariant and two induction lemmas; floating-point rounding is outside the contract and only covered by the labelled bounded grid check',
+    functions=[GS + 'create_linear_distribution', GS + 'create_pref_lists_original'],
+    lemmas=['C17/sum-positive', 'C17/scaled-sum', 'LISTSET/empty-append', 'LISTSET/iterate'],
+    level_text='postcondition (positive, sums to one, arithmetic progression, last = skew*first, n=1 gives [1]) proved over the reals for every n >= 1 and skew > 0 by a loop invariant and two induction lemmas; create_pref_lists_original hands exactly these weights to every draw (assertion on the p argument of np.random.choice in every iteration); floating-point rounding is outside the contract and only covered by the labelled bounded grid check',
     harness=True, bound='n <= 40 (quick) / 200 (thorough), 18 fixed skews + seeded random skews; tolerance 1e-9 relative',
     trusted=['T10 numpy: np.sum is the mathematical sum; array / scalar divides elementwise',
              'float treated as mathematical real (DESIGN 3.1); induction principle of the lemma engine'],
@@ -32,13 +32,13 @@ PROPS['C17'] = dict(
 SPA = 'generator_spa:Generator_spa.'
 PROPS['C12'] = dict(
     title='Second-side lists rank exactly the agents that find them acceptable',
-    functions=[GS + 'create_pref_lists_from_other_lists', SPA + 'create_student_lec_lists', GS + 'create_ties_indicators'],
+    functions=[GS + 'create_pref_lists_from_other_lists', SPA + 'create_student_lec_lists', GS + 'create_ties_indicators', SPA + 'generate_instances', 'generator_ha_sm_hr:Generator_ha_sm_hr.generate_instances'],
     lemmas=['C12/spa-compose', 'LISTSET/empty-append', 'LISTSET/permute', 'LISTSET/iterate'],
-    level_text='both inversion functions verified for all list shapes by loop invariants over the element-set view of lists (exactly-once = duplicate-free + membership iff); SPA composition lemma proves the lecturer statement; the list-set fact schemas are themselves proved from the definitions',
+    level_text='both inversion functions verified for all list shapes by loop invariants over the element-set view of lists (exactly-once = duplicate-free + membership iff); SPA composition lemma proves the lecturer statement; the list-set fact schemas are themselves proved from the definitions; both generate_instances functions are verified as wiring: for every accepted argument record, what is handed to create_instance (the writer) satisfies the property statement itself - second-side lists rank exactly those who rank them (SPA: who rank one of the lecturer\'s projects), each once - as a call-site obligation',
     harness=True, bound='<= 5 agents per side, <= 6 projects, <= 4 lecturers; whole generator runs n <= 6',
     trusted=['T10 random.shuffle permutes its argument in place; np.random.choice returns values of positive probability',
              'T10 np.random.choice(replace=False) returns distinct elements (precondition first-side-lists-duplicate-free)',
-             'call sites in generate_instances (which list is passed where) are covered by C08 contracts / the bounded generator runs'],
+             'create_instance itself (string assembly of the lists it is handed) is covered by the bounded generator runs'],
     assumptions=['list-set view: facts instantiated by the engine at append/empty/shuffle/iteration, each justified by a LISTSET lemma',
                  'Python int is unbounded; list displays do not alias; the loop variable of `for x in lists: shuffle(x)` aliases the element (modelled)'])
 IOP = 'instance_options_parser:Instance_options_parser.'
@@ -175,14 +175,14 @@ PROPS['C10'] = dict(
 PROPS['C08'] = dict(
     title='Generated files are well-formed instances of the requested type and parameters',
     functions=[GS + 'create_quotas', SPA + 'create_project_lecturers', GS + 'create_ties_indicators', GS + 'create_pref_lists_original', GS + 'create_linear_distribution',
-               GS + 'create_string_pref'] + [(IOP + 'parse', {'argv_fixed': {'matchingproblem': mp}}) for mp in ('ha', 'sm', 'hr', 'spa')],
+               GS + 'create_string_pref', SPA + 'generate_instances', 'generator_ha_sm_hr:Generator_ha_sm_hr.generate_instances'] + [(IOP + 'parse', {'argv_fixed': {'matchingproblem': mp}}) for mp in ('ha', 'sm', 'hr', 'spa')],
     lemmas=['C08/shares', 'C08/spread-monotone', 'C17/sum-positive', 'C17/scaled-sum', 'C13/writer-shape', 'LISTSET/empty-append', 'LISTSET/permute', 'LISTSET/iterate'], level='other',
-    level_text='proved for all parameters: quotas / targets / projects per lecturer are the even spreading (share k = total // n + [k < total % n]: larger shares first, spread <= 1, sum = total, monotone in the total hence lower <= target <= upper pointwise); first-side lists have between pmin and pmax distinct agents in range and the RNG preconditions hold (positive weights summing to one, k <= n2); tie indicators are 0 / 1 and constant for probability 0 / 1; the tie writer brackets maximal runs; every accepted argument vector satisfies the bounds the generators rely on (parse postconditions, all four types).  NOT proved deductively (bounded stand-in): the text assembly in create_instance (both generators), generate_instances (which list is written where, file names 0..k-1) and "every length in [pmin,pmax] can occur" (T10)',
+    level_text='proved for all parameters: quotas / targets / projects per lecturer are the even spreading (share k = total // n + [k < total % n]: larger shares first, spread <= 1, sum = total, monotone in the total hence lower <= target <= upper pointwise); first-side lists have between pmin and pmax distinct agents in range and the RNG preconditions hold (positive weights summing to one, k <= n2); tie indicators are 0 / 1 and constant for probability 0 / 1; the tie writer brackets maximal runs; every accepted argument vector satisfies the bounds the generators rely on (parse postconditions, all four types).  generate_instances (both generators) is verified as wiring: every callee precondition holds (so it never raises before writing), and create_instance is called with first-side lists of distinct in-range agents, tie flags of the same shape, one in-range lecturer per project, quotas with 0 <= lower <= (target <=) upper pointwise (spreading lemmas) and second-side lists as in C12.  NOT proved deductively (bounded stand-in): the text assembly inside create_instance (both generators), file names 0..k-1 and "every length in [pmin,pmax] can occur" (T10)',
     harness=True, bound='n <= 6 agents per side, numinst <= 2, tie probabilities {0, 0.3/0.4, 1}, skew {0.5, 1, 3, 10}',
     budget={'quick': 20, 'thorough': 300},
     trusted=['T10 numpy / random: randint in [a,b), choice(replace=False) returns distinct elements of its argument, choice never returns a value of probability 0, shuffle permutes, np.sum / array division as documented',
              'T8 file I/O', 'T9 argparse', 'int(a / b) == a // b for a + b < 2**53 (DESIGN 3.1)'],
-    assumptions=['create_instance / generate_instances text assembly: bounded stand-in only'])
+    assumptions=['create_instance text assembly and file naming: bounded stand-in only', 'generate_instances is verified for argument records satisfying the postconditions of Instance_options_parser.parse (C15)'])
 GETTER_HELPERS = ['_get_max_rank', '_get_cost', '_get_cost_sq', '_get_degree', '_get_profile', '_get_lec_abs_diffs', '_get_max_lec_abs_diff', '_get_sum_lec_abs_diff',
                   '_get_matching_string', '_get_matching_size', '_get_pair_assignments', '_get_pair_assignments_with_none', 'get_results', 'get_debug', '_pairs_string',
                   'check_stability', 'get_num_assignments_projects', 'get_num_assignments_lecturers', 'get_worst_rank_projects', 'get_worst_rank_lecturers']
@@ -200,7 +200,7 @@ PROPS['C09'] = dict(
     title='Every generated instance is solvable by the solver under the documented flags',
     functions=[GS + 'create_string_pref', FIO + '_get_simple_pref_list_and_ranks', GS + 'create_quotas', SPA + 'create_project_lecturers',
                GS + 'create_pref_lists_from_other_lists', SPA + 'create_student_lec_lists', FIO + '_set_lecturers', FIO + '_set_lecturer_ranks', FIO + '_create_pairs_row',
-               LP + 'upper_lower_constraints', LP + 'stability_constraints', MOD + 'check_stability', BF + 'is_valid'],
+               LP + 'upper_lower_constraints', LP + 'stability_constraints', MOD + 'check_stability', BF + 'is_valid', SPA + 'generate_instances', 'generator_ha_sm_hr:Generator_ha_sm_hr.generate_instances'],
     lemmas=['C05/prefix-filter', 'C13/compose', 'C12/spa-compose', 'C09/rank-keys', 'C09/quota-order', 'C08/shares', 'C08/spread-monotone'], level='other',
     level_text='composition obligations between the generator-side and reader-side contracts, each proved for all sizes: the tie writer\'s postcondition is the tie reader\'s precondition (C13/compose); generated quotas satisfy 0 <= lower <= target <= upper pointwise (C09/quota-order from the spreading lemmas and the accepted-argument postcondition); project lecturers are in range; every (lecturer, student) key the reader looks up is on that lecturer\'s generated list (C09/rank-keys from C12/spa-compose).  NOT proved deductively (bounded stand-in): the text layer between create_instance and _import_from_file, and that both solving modes are correct on the loaded instance (C01-C07 instantiated)',
     harness=True, bound='n <= 4 agents per side, all four types, LP with 0-2 criteria (+-pc, +-stab) and brute force on every generated file',
